@@ -27,7 +27,7 @@ SNIPPETS = [
     ("local function f(a, b, ...) return a, b end\n", "lua51"), ("function m.n:o(a) return end\n", "lua51"), ("return function(x) return x end\n", "lua51"),
     ("local f = function() end\n", "lua51"), ("local a = 1; local b = 2;\n(f or g)()\n", "lua51"), ("if a then return end\nlocal z = 1\n", "lua51"),
     # tables
-    ("local t = { a = 1, [2] = 3, 4; 5 }\n", "lua51"), ("local t = {\n\t  red = 1\n\t, green = 2\n\t, blue = 3\n}\n", "lua51"),
+    ("local t = { a = 1, [2] = 3, 4; 5 }\n", "lua51"), ("local m = { greeting = translate(\"hello\"), n = g{ 1 }, o:p(\"q\").r }\n", "lua51"), ("local t = {\n\t  red = 1\n\t, green = 2\n\t, blue = 3\n}\n", "lua51"),
     ("local t = {\n\tf = function() return 0; end,\n\tg = { 1, 2 },\n}\n", "lua51"), ("call({ a, b }, function() return 1 end)\n", "lua51"),
     # collapsible bodies
     ("local d = function() return 0; end\n", "lua51"), ("local function g() start(); end\n", "lua51"), ("if ready then start() end\n", "lua51"),
